@@ -56,6 +56,25 @@ func zzC10Mgr(pre int) {
 			return w.mgr.ChangePassphrase(ns, zzPrvPass, []byte("new-pass"), true, zzFastScrypt)
 		}},
 		{"SetBirthday", func(ns walletdb.ReadWriteBucket) error { return w.mgr.SetBirthday(ns, time.Unix(1700000000, 0)) }},
+		{"ExtendInternalAddresses", func(ns walletdb.ReadWriteBucket) error { return sm.ExtendInternalAddresses(ns, 0, 1) }},
+		{"ImportPublicKey", func(ns walletdb.ReadWriteBucket) error { _, err := sm.ImportPublicKey(ns, priv.PubKey(), bs); return err }},
+		{"ImportWitnessScript", func(ns walletdb.ReadWriteBucket) error {
+			_, err := sm.ImportWitnessScript(ns, []byte{0x51, 0x53, 0x93, 0x87}, bs, 0, true)
+			return err
+		}},
+		{"NewAccountWatchingOnly", func(ns walletdb.ReadWriteBucket) error {
+			k, err := zzImportedAccountKey(w.root)
+			zzMust(err)
+			_, err = sm.NewAccountWatchingOnly(ns, "somebody", k, 0x11223344, nil)
+			return err
+		}},
+		{"SetBirthdayBlock", func(ns walletdb.ReadWriteBucket) error { return w.mgr.SetBirthdayBlock(ns, *bs, true) }},
+		{"NeuterRootKey", func(ns walletdb.ReadWriteBucket) error { return w.mgr.NeuterRootKey(ns) }},
+		{"NewScopedKeyManager", func(ns walletdb.ReadWriteBucket) error {
+			_, err := w.mgr.NewScopedKeyManager(ns, KeyScope{Purpose: 1017, Coin: 0}, ScopeAddrSchema{ExternalAddrType: WitnessPubKey, InternalAddrType: WitnessPubKey})
+			return err
+		}},
+		{"ConvertToWatchingOnly", func(ns walletdb.ReadWriteBucket) error { return w.mgr.ConvertToWatchingOnly(ns) }},
 	}
 	// the addresses the next requests would hand out, learnt from a throwaway
 	// manager inside a transaction that is rolled back: they are not issued
@@ -116,4 +135,6 @@ func zzC10Mgr(pre int) {
 }
 
 func ZzC10Mgr0() { zzC10Mgr(0) }
+
+var _ = memdb.EqualDumps
 func ZzC10Mgr1() { zzC10Mgr(1) }
